@@ -212,14 +212,14 @@ func checkC07(cx *Ctx, r *Report) {
 				if a.Op == "NIL" && a.Neg && strings.HasSuffix(a.A, "time.Parse#1") {
 					reason = true
 				}
-				if strings.HasPrefix(a.Op, "CALL:(time.Time).") && !a.Neg {
-					reason = true
+				if strings.HasPrefix(a.Op, "CALL:(time.Time).") {
+					reason = true // either outcome of a comparison with now (`!t.After(now)` for `t.Equal(now) || t.Before(now)`)
 				}
 			}
 			// the last decision on the path must be that reason
 			if len(p.Atoms) > 0 {
 				last := p.Atoms[len(p.Atoms)-1]
-				if !(last.Op == "NIL" && last.Neg && strings.HasSuffix(last.A, "time.Parse#1")) && !(strings.HasPrefix(last.Op, "CALL:(time.Time).") && !last.Neg) {
+				if !(last.Op == "NIL" && last.Neg && strings.HasSuffix(last.A, "time.Parse#1")) && !strings.HasPrefix(last.Op, "CALL:(time.Time).") {
 					reason = false
 				}
 			}
@@ -594,8 +594,8 @@ func (cx *Ctx) checkRedirectOctetsShape(r *Report) {
 		call := ci.(*ssa.Convert)
 		// the converted string may be chosen among several (a local assigned in both arms of a test): each
 		// alternative is judged with the atoms holding where it is chosen
-		for _, alt := range cx.strAlts(call.X, ci) {
-			parts := mergeLits(cx.strParts(alt.Val))
+		for _, alt := range cx.strPartAlts(call.X, ci) {
+			parts := mergeLits(alt.Parts)
 			if len(parts) == 0 || !parts[0].IsLit || !strings.HasPrefix(parts[0].Lit, "SAMLRequest=") {
 				continue
 			}
